@@ -70,6 +70,7 @@ fn run(ctx: &Ctx, out: &mut Out) {
     leg_population(ctx, out, &built);
     leg_jets(ctx, out, &built);
     leg_jet_outputs(ctx, out, &built);
+    leg_term_outputs(ctx, out, &built);
 }
 
 /// `comp witness j : 1 -> B` as a bare expression: both evaluators must produce the same output
@@ -241,6 +242,129 @@ fn leg_jets(ctx: &Ctx, out: &mut Out, envs_: &[(String, envs::Built)]) {
                 }
                 ctx.end();
             }
+        }
+    }
+}
+
+/// inspect_T : T -> 1, whose principal source type is exactly T (cf. C12)
+fn inspect_term(t: &std::rc::Rc<crate::reference::tyval::RT>) -> std::rc::Rc<crate::reference::eval::Term> {
+    use crate::reference::eval::{Term, Tm};
+    use crate::reference::tyval::RT;
+    let one = RT::unit();
+    match &**t {
+        RT::Unit => Term::new(Tm::Unit, t, &one),
+        RT::Sum(a, b) => {
+            let t1 = RT::prod(t, &one);
+            let p = Term::new(Tm::Pair(Term::new(Tm::Iden, t, t), Term::new(Tm::Unit, t, &one)), t, &t1);
+            let l = Term::new(Tm::Take(inspect_term(a)), &RT::prod(a, &one), &one);
+            let r = Term::new(Tm::Take(inspect_term(b)), &RT::prod(b, &one), &one);
+            let c = Term::new(Tm::Case(l, r), &t1, &one);
+            Term::new(Tm::Comp(p, c), t, &one)
+        }
+        RT::Prod(a, b) => {
+            let oo = RT::prod(&one, &one);
+            let p = Term::new(Tm::Pair(Term::new(Tm::Take(inspect_term(a)), t, &one), Term::new(Tm::Drop(inspect_term(b)), t, &one)), t, &oo);
+            Term::new(Tm::Comp(p, Term::new(Tm::Unit, &oo, &one)), t, &one)
+        }
+    }
+}
+
+/// `comp witness(input) t : 1 -> B` for the disconnect and crossed-profile terms of C05/C07, as bare
+/// expressions: both evaluators must produce the same output bits (a verdict-only comparison cannot
+/// see a frame that is sized or placed wrongly unless some consumer happens to fail on it).
+fn leg_term_outputs(ctx: &Ctx, out: &mut Out, envs_: &[(String, envs::Built)]) {
+    use crate::props::c05::{asymmetric_terms, disconnect_terms, inputs_of};
+    use crate::reference::eval::{Term, Tm};
+    use crate::reference::tyval::{RT, RV};
+    use crate::space::terms::Builder;
+    let leg = "term-outputs";
+    let mut b = Builder::with_family(Fam::Elements);
+    // (C refuses fail nodes by design)
+    fn has_fail(t: &Term) -> bool {
+        match &t.tm {
+            Tm::Fail(_) => true,
+            Tm::InjL(s) | Tm::InjR(s) | Tm::Take(s) | Tm::Drop(s) | Tm::AssertL(s, _) | Tm::AssertR(_, s) => has_fail(s),
+            Tm::Comp(a, b) | Tm::Case(a, b) | Tm::Pair(a, b) | Tm::Disconnect(a, b) => has_fail(a) || has_fail(b),
+            _ => false,
+        }
+    }
+    let mut terms: Vec<(String, std::rc::Rc<Term>)> = disconnect_terms(ctx.tier).into_iter().filter(|t| !has_fail(t)).map(|t| (t.describe(), t)).collect();
+    terms.extend(asymmetric_terms());
+    let env = &envs_[0].1.env;
+    for (name, t) in terms {
+        if !ctx.mine() {
+            continue;
+        }
+        for input in inputs_of(&t.src) {
+            let label = || format!("comp witness[{input}] ({name}) : 1 -> {}", t.tgt);
+            if !ctx.begin(leg, &label) {
+                continue;
+            }
+            out.evaluations += 1;
+            out.states += 1;
+            out.nontrivial += 1;
+            out.transitions += 2;
+            let res = guard(|| -> Result<&'static str, (String, String)> {
+                // comp witness (comp (pair iden inspect_A) (comp (take t) (pair iden inspect_B))) : 1 -> B x 1:
+                // the two inspectors destruct A and B completely, which makes the annotation principal
+                let one = RT::unit();
+                let w = Term::new(Tm::Witness(input.clone()), &one, &t.src);
+                let a1 = RT::prod(&t.src, &one);
+                let b1 = RT::prod(&t.tgt, &one);
+                let pin_a = Term::new(Tm::Pair(Term::new(Tm::Iden, &t.src, &t.src), inspect_term(&t.src)), &t.src, &a1);
+                let run = Term::new(Tm::Take(t.clone()), &a1, &t.tgt);
+                let body = if t.tgt.width() <= 16 {
+                    let pin_b = Term::new(Tm::Pair(Term::new(Tm::Iden, &t.tgt, &t.tgt), inspect_term(&t.tgt)), &t.tgt, &b1);
+                    Term::new(Tm::Comp(run, pin_b), &a1, &b1)
+                } else {
+                    run
+                };
+                let tgt = body.tgt.clone();
+                let prog = Term::new(Tm::Comp(w, Term::new(Tm::Comp(pin_a, body), &t.src, &tgt)), &one, &tgt);
+                let r = b.redeem(&prog).map_err(|e| ("term-outputs:build".to_string(), e))?;
+                let (pb, wb) = r.to_vec_with_witness();
+                // the harness pins every arrow to the term's annotation; only programs for which that
+                // is the principal typing serialise to bytes that mean the same program (quantifier)
+                b.pin = false;
+                let free = guard(|| b.redeem(&prog));
+                b.pin = true;
+                match free {
+                    Ok(Ok(f)) if f.ihr() == r.ihr() && f.arrow().target == r.arrow().target => {}
+                    _ => return Ok("skipped:annotation-is-not-the-principal-typing"),
+                }
+                let mut cp = c_check_expr(&pb, &wb).map_err(|(c, st)| ("c-rejects-expression".to_string(), format!("{} at {st}", err_name(c))))?;
+                let nbits = r.arrow().target.bit_width();
+                if cp.root_target_bits() != nbits || cp.root_source_bits() != 0 {
+                    return Err(("term-outputs:types".into(), "C and Rust infer different root types".into()));
+                }
+                let (code, cbits) = cp.eval_output(Some(env.c_tx_env()), nbits);
+                let mut mac = BitMachine::for_program(&r).map_err(|x| ("rust-unexpected".to_string(), x.to_string()))?;
+                let rres = mac.exec(&r, env);
+                match (err_name(code), rres) {
+                    ("NoError", Ok(v)) => {
+                        let rv = RV::from_value(&v).map_err(|x| ("term-outputs:value".to_string(), x))?;
+                        let want = rv.padded(&RT::from_final(&r.arrow().target));
+                        if cbits.len() != want.len() || want.iter().zip(&cbits).any(|(w, c)| w.map(|w| w != *c).unwrap_or(false)) {
+                            return Err(("term-outputs:differ".into(), format!("C output {} Rust output {rv}", crate::reference::bits::bits_str(&cbits))));
+                        }
+                        Ok("same-output")
+                    }
+                    ("ExecJet", Err(ExecutionError::JetFailed(_))) => Ok("both-jet-failure"),
+                    ("ExecAssert", Err(ExecutionError::ReachedPrunedBranch(_))) => Ok("both-assertion"),
+                    ("ExecMemory" | "ExecBudget" | "Malloc", _) => Ok("outside-c-limits"),
+                    (c, r2) => Err((format!("term-outputs:verdict:c-{c}"), format!("C {c}, Rust {:?}", r2.map(|_| "ok").map_err(|e| e.to_string())))),
+                }
+            });
+            match res {
+                Ok(Ok(o)) => {
+                    out.outcome(o);
+                    out.count(&format!("term-outputs:{o}"), 1);
+                    out.sample(leg, || (label(), o.to_string()));
+                }
+                Ok(Err((c, d))) => out.violation(&c, leg, label(), d),
+                Err(pn) => out.violation(&panic_class(&pn), leg, label(), pn),
+            }
+            ctx.end();
         }
     }
 }
